@@ -36,6 +36,15 @@ func decodeKindBytes(kind string, tiffLE, tiffBE []byte, rng *rand.Rand) []byte 
 	case "jpeg2":
 		return gen.BuildJPEG("soi", []gen.JSeg{exifSeg(tiffLE), {Mk: "APP0", Cls: "jfif", Plen: 14}, exifSeg(tiffLE), {Mk: "DQT", Cls: "opaque", Plen: 65}}, rng,
 			map[int][]byte{0: tiffLE, 2: tiffLE})
+	case "jpegxe", "jpegex":
+		x := gen.JSeg{Mk: "APP1", Cls: "xmp", Plen: 29 + 150}
+		segs := []gen.JSeg{x, {Mk: "APP0", Cls: "jfif", Plen: 14}, exifSeg(tiffLE), {Mk: "DQT", Cls: "opaque", Plen: 65}}
+		at := 2
+		if kind == "jpegex" {
+			segs = []gen.JSeg{exifSeg(tiffLE), {Mk: "APP0", Cls: "jfif", Plen: 14}, x, {Mk: "DQT", Cls: "opaque", Plen: 65}}
+			at = 0
+		}
+		return gen.BuildJPEG("soi", segs, rng, map[int][]byte{at: tiffLE})
 	case "tiff":
 		return append(append([]byte{}, tiffLE...), make([]byte, 64)...)
 	case "tiffBE":
